@@ -82,7 +82,7 @@ def parseOp? (w : List String) : Option Op :=
   | ["timeout", e] => (timerOf? e).map Op.timeout
   | ["disc"] => some .disc
   | ["stop"] => some .stop
-  | "send" :: rest => (parseFields? rest).map Op.send
+  | "send" :: rest => (parseFields? rest).map fun f => Op.send (f.filter (·.1 != 35))
   | ["flush"] => some .flush
   | ["stime", x] => some (.stime x)
   | ["rtime", n] => (rtimeOf? n).map Op.rtime
